@@ -121,14 +121,19 @@ def random_match_case(rng, exact=True, scope="in"):
     #  constant to both series adds the same to every target and every window integral)
     if scope == "in" and not big and exact and xref == [xs[i] for i in fpi] and rng.random() < 0.5:
         c["yoff"] = [rng.choice([-1, 1]), rng.choice([17, 20])]          # values on a level far above their variation (exact translation)
-    if scope == "in" and all(v.denominator == 1 and 0 <= v < 250 for v in xs) and rng.random() < 0.5:
+    if mode == "indices" and scope == "in" and len(fpi) >= 2 and rng.random() < 0.3:
+        # positions given together with the indices, and designating other samples: the indices win (documented)
+        others = [i for i in range(n) if i not in fpi]
+        if others:
+            c["decoy"] = [R(xs[i]) for i in sorted(rng.sample(others, min(len(others), 2)))]
+    if scope in ("in", "reject") and all(v.denominator == 1 and 0 <= v < 250 for v in xs) and rng.random() < 0.5:
         c["container"] = rng.choice(["uint8", "uint16", "int16", "int"])       # integer-typed abscissae (counters, sample numbers)
     elif scope == "in" and not big and rng.random() < 0.12:
         c["xoff"] = [rng.choice([-1, 1]), rng.choice([31, 40])]     # the same problem far from the origin (exact translation)
     return c
 
 
-CASE_KEYS = ("fn", "x", "y", "xref", "yref", "mode", "strategy", "given", "trule", "rrule", "alpha", "alpha_f", "exact", "bounded", "container", "ycontainer", "mc", "xoff", "yoff")
+CASE_KEYS = ("fn", "x", "y", "xref", "yref", "mode", "strategy", "given", "trule", "rrule", "alpha", "alpha_f", "exact", "bounded", "container", "ycontainer", "mc", "xoff", "yoff", "decoy")
 
 
 def random_private_case(rng):
